@@ -49,12 +49,12 @@ theorem C18_committed_survive (done rest : List TxUnit) (hok : Ok (done ++ rest)
 /-- **Uncommitted work is absent**: a kill anywhere inside a BEGIN … COMMIT block (before the COMMIT call returned)
     or a BEGIN … ROLLBACK block leaves exactly the state before the BEGIN. -/
 theorem C18_uncommitted_absent (done rest : List TxUnit) (u : TxUnit) (hok : Ok (done ++ u :: rest))
-    (hu : ∃ b, u = .txc b ∨ u = .txr b) (log : List Eff) (k : Nat)
+    (hu : ∃ b, u = .txc b ∨ u = .txr b ∨ u = .txf b) (log : List Eff) (k : Nat)
     (hk : ncalls done ≤ k) (hk' : k < ncalls done + (flat u.stmts).length) :
     recover (crash ⟨log, none⟩ (hist (done ++ u :: rest)) k) = log ++ done.flatMap TxUnit.eff := by
   rw [C18_crash_characterisation _ hok, crashSpec_done done (u :: rest) k hk]
   have : ¬ (flat u.stmts).length ≤ k - ncalls done := by omega
-  obtain ⟨b, rfl | rfl⟩ := hu <;> simp [crashSpec, this, TxUnit.partialEff]
+  obtain ⟨b, rfl | rfl | rfl⟩ := hu <;> simp [crashSpec, this, TxUnit.partialEff]
 
 /-- **Clean exit / exception leaving `patch()`**: after the last call the files hold exactly the committed units. -/
 theorem C18_clean_exit (us : List TxUnit) (hok : Ok us) (log : List Eff) :
@@ -64,6 +64,16 @@ theorem C18_clean_exit (us : List TxUnit) (hok : Ok us) (log : List Eff) :
   simp only [List.append_nil] at h2
   rw [h2] at this
   simpa [crash, finish, ncalls, crashSpec] using this
+
+/-- **A COMMIT that fails commits nothing**: when DuckDB rejects the COMMIT of a transaction (commit-time PRIMARY KEY /
+    UNIQUE conflict with a concurrent transaction of the same instance) the exception reaches the caller
+    (`cursor.py:259-266` turns only "no transaction is active" into the success row) and a later process finds none of
+    that transaction's work – exactly what the session was told.  (A handler that answers every failing COMMIT with the
+    success row tells the session "committed" for work that `recover` does not contain.) -/
+theorem C18_failed_commit_leaves_nothing (done : List TxUnit) (body : List Stmt) (hok : Ok (done ++ [.txf body]))
+    (log : List Eff) :
+    recover (finish ⟨log, none⟩ (hist (done ++ [.txf body]))) = log ++ done.flatMap TxUnit.eff := by
+  rw [C18_clean_exit _ hok]; simp [TxUnit.eff]
 
 /-- **Durable means durable** (any history, well-formed or not): what is found after a kill at `k` is a prefix of
     what is found after a kill at any later point – later activity never loses or reorders committed effects. -/
@@ -121,6 +131,7 @@ theorem C18_stmt_atomic_partial (log : List Eff) (done : List TxUnit) (u : TxUni
       rw [← ht]; simp
   | txc b => left; simp [tornAt, TxUnit.partialEff]
   | txr b => left; simp [tornAt, TxUnit.partialEff]
+  | txf b => left; simp [tornAt, TxUnit.partialEff]
 
 /-- Finding `C18/torn-table-metadata`: `CREATE TABLE t (… VARCHAR(10)) COMMENT = '…'` killed after the DDL call:
     the table is there, its comment and VARCHAR length are not. -/
